@@ -101,16 +101,29 @@ def check_one_line_json(b):
         return None, f'not valid JSON ({type(e).__name__})'
 
 
+def id_admitted(pname, v):
+    """ids the decoder of this class accepts in a well-formed message of its own format"""
+    if pname == 'v1':
+        return True
+    return v is None or (isinstance(v, (int, float, str)) and not isinstance(v, bool))
+
+
 def oracle_decode(mod, pname, payload, outcome):
     """Property oracle for one decode.  `outcome` = ('ok', item, rid) | ('exc', e).
-    Returns None or (key, why)."""
+    Returns None or (key, why).
+
+    Clauses (from the property text): only an item or a ProtocolError comes out; an error reply
+    is one newline-free line of valid JSON in the version's format; a decoded item is *equal* to
+    what the message says (method, params, result, error code/message) and has the *same id* -
+    also the id reported for a rejected response; the strict decoders accept only messages in
+    their own format; 1.0 has no batches.  Which ProtocolError *code* a refusal carries and the
+    best-effort reading of ill-formed 1.0/Loose error objects are not in the text: they are
+    compared with the model only."""
     if outcome[0] == 'exc':
         e = outcome[1]
         if not isinstance(e, mod.ProtocolError):
             return f'c04:decode-raises-{type(e).__name__}', \
                 f'message_to_item raised {type(e).__name__}, not an item or ProtocolError'
-        if e.code not in cc.DOCUMENTED_CODES:
-            return 'c04:undocumented-code', f'ProtocolError code {e.code!r} is not a documented JSON-RPC code'
         if e.error_message is not None:
             obj, why = check_one_line_json(e.error_message)
             if why:
@@ -121,6 +134,16 @@ def oracle_decode(mod, pname, payload, outcome):
             pid = payload.get('id') if isinstance(payload, dict) else None
             if not (obj.get('id') is None or same(obj.get('id'), pid)):
                 return 'c04:error-reply-id', 'error reply carries an id that is neither null nor the request id'
+        if e.response_msg_id is not id:
+            # the message was taken for a response: the id it is reported under is the id it
+            # carries (loss-free), when that id is one this class accepts in a response
+            if isinstance(payload, dict) and 'id' in payload and id_admitted(pname, payload['id']):
+                if not same(e.response_msg_id, payload['id']):
+                    return 'c04:response-error-id', \
+                        'a rejected response is reported under an id other than the one it carries'
+            elif e.response_msg_id is not None and not (
+                    isinstance(payload, dict) and same(e.response_msg_id, payload.get('id'))):
+                return 'c04:response-error-id', 'a rejected response is reported under an id it does not carry'
         return None
     _ok, item, rid = outcome
     if isinstance(item, list):
@@ -132,13 +155,14 @@ def oracle_decode(mod, pname, payload, outcome):
     if not isinstance(payload, dict):
         return 'c04:non-object-accepted', 'a non-object message was decoded to an item'
     is_req = isinstance(item, (mod.Request, mod.Notification))
-    # ids: the item's id is the message's id; notification <=> no id / null id
+    # same id: a request carries the id member; a notification is a message without an id (absent,
+    # or null - the library's reading of "id": null, theorem null_id_is_notification)
     pid = payload.get('id')
     if is_req:
         if isinstance(item, mod.Notification):
             if pid is not None:
                 return 'c04:notification-with-id', 'a message with a non-null id was decoded as a notification'
-        elif pid is None or not same(rid, pid):
+        elif 'id' not in payload or not same(rid, pid):
             return 'c04:request-id', 'request id differs from the id member'
         if not isinstance(item.method, str) or not same(item.method, payload.get('method')):
             return 'c04:method', 'decoded method is not the method member (a string)'
@@ -152,8 +176,13 @@ def oracle_decode(mod, pname, payload, outcome):
             return 'c04:response-id', 'response id differs from the id member'
         r = item.result
         if isinstance(r, mod.RPCError):
-            if payload.get('error') is None:
+            err = payload.get('error')
+            if err is None:
                 return 'c04:error-from-nothing', 'an error response was decoded from a message without error'
+            if isinstance(err, dict) and type(err.get('code')) is int and type(err.get('message')) is str:
+                # a well-formed error object: code and message are the ones sent
+                if not (same(r.code, err['code']) and same(r.message, err['message'])):
+                    return 'c04:error-value', 'decoded error code/message differ from the error member'
         elif not same(r, payload.get('result')) or 'result' not in payload:
             return 'c04:result-value', 'decoded result differs from the result member'
     # strict decoders accept only messages in their own format
@@ -235,10 +264,10 @@ def run_decode_impl(ctx, cases):
 
 def model_lines(ctx, lines):
     """run the driver, in parallel chunks when there is a lot to do"""
-    if len(lines) < 60000 or not ctx.have_model:
+    if len(lines) < 4000 or not ctx.have_model:
         return ctx.model(lines)
     from concurrent.futures import ThreadPoolExecutor
-    n = 8
+    n = 8 if len(lines) >= 60000 else 4
     size = (len(lines) + n - 1) // n
     chunks = [lines[i:i + size] for i in range(0, len(lines), size)]
     with ThreadPoolExecutor(n) as ex:
@@ -436,6 +465,7 @@ def eval_roundtrip(mod, rt, loop):
         mlines.append((mline, 'ok ' + E(cc.canon_msg(obj) if isinstance(obj, dict) else [cc.canon_msg(x) for x in obj]), 'encode'))
         if not cc.has_float(obj):
             mlines.append((f'dumps {E(obj)}', 'D' + b.decode(), 'dumps'))
+            mlines.append((f'loads {b.hex()}', 'L' + E(obj), 'loads'))
         o = decode_raw(mod, cls, b)
         line = outcome_line(mod, o)
         mlines.append((f'dec {pn} {E(obj)}', line, 'decode'))
@@ -473,6 +503,7 @@ def eval_roundtrip(mod, rt, loop):
         mlines.append((mline, 'ok ' + E(cc.canon_msg(obj) if isinstance(obj, dict) else [cc.canon_msg(x) for x in obj]), 'encode'))
         if not cc.has_float(obj):
             mlines.append((f'dumps {E(obj)}', 'D' + b.decode(), 'dumps'))
+            mlines.append((f'loads {b.hex()}', 'L' + E(obj), 'loads'))
         o = decode_raw(mod, cls, b)
         line = outcome_line(mod, o)
         mlines.append((f'dec {pn} {E(obj)}', line, 'decode'))
@@ -641,6 +672,295 @@ def evaluate_roundtrips(ctx, res, rts, scope):
     res['evaluations'] += len(rts)
 
 
+# ------------------------------------------------------------------------------ histories
+# "decoding the bytes yields an equal item" holds every time the bytes are decoded, whatever was
+# decoded (and whatever the receiver did with it) before: a decoder entry point is run on the
+# bytes of an encoded item, the decoded objects are modified in place (a handler is free to sort /
+# pop / update the argument list it was handed), other messages may be decoded, and then EQUAL
+# bytes (a distinct bytes object) are decoded again - by the same class, by another class that
+# gives the message the same meaning, through a fresh connection, or by detect_protocol.
+ENTRIES = ('item', 'recv', 'detect')
+
+
+def poison(v, how, seen=None):
+    """modify every list / dict reachable from v in place"""
+    seen = seen if seen is not None else set()
+    if id(v) in seen:
+        return
+    seen.add(id(v))
+    if type(v) is list:
+        for x in list(v):
+            poison(x, how, seen)
+        if how == 'clear':
+            v.clear()
+        else:
+            v.insert(0, 'MUT')
+    elif type(v) is dict:
+        for x in list(v.values()):
+            poison(x, how, seen)
+        if how == 'clear':
+            v.clear()
+        else:
+            v['MUT'] = 0
+
+
+def poison_decoded(mod, got, how):
+    for o in got:
+        if isinstance(o, (mod.Request, mod.Notification)):
+            poison(o.args, how)
+        elif isinstance(o, mod.Response):
+            poison(o.result, how)
+        else:
+            poison(o, how)
+
+
+class Hist:
+    """rt: the encoded item; steps: list of ['dec', entry, pname] | ['mut', how] | ['other'] |
+    ['encmut', how] (modify OUR argument object in place and encode again)"""
+    __slots__ = ('rt', 'steps')
+
+    def __init__(self, rt, steps):
+        self.rt, self.steps = rt, steps
+
+    def case(self):
+        return {'kind': 'history', 'rt': self.rt.case(), 'steps': self.steps}
+
+    @staticmethod
+    def from_case(d):
+        return Hist(RT.from_case(d['rt']), [list(x) for x in d['steps']])
+
+
+def same_meaning(origin, rid):
+    """classes that must decode an `origin`-encoded message exactly as `origin` does"""
+    if origin == 'v1':
+        return ('v1', 'loose') if loose_admits(rid) else ('v1',)
+    return ('v2', 'loose', 'auto')
+
+
+def gen_history(rng):
+    while True:
+        rt = gen_rt(rng)
+        if rt.pname == 'v1' and (rt.what == 'batch' or isinstance(rt.args, dict)):
+            continue        # refused by the encoder: nothing to decode
+        break
+    rid = rt.rid if rt.what != 'batch' else 0
+    classes = same_meaning(rt.pname, rid)
+    server_side = rt.what in ('request', 'notification', 'batch')
+
+    def dec():
+        r = rng.random()
+        entry = 'item' if r < 0.55 or not server_side else ('recv' if r < 0.85 else 'detect')
+        if entry == 'detect' and rt.pname == 'v1' and not loose_admits(rid):
+            entry = 'item'
+        return ['dec', entry, rng.choice(classes)]
+    how = rng.choice(('insert', 'insert', 'clear'))
+    shape = rng.random()
+    if shape < 0.5:
+        steps = [dec(), ['mut', how], dec()]
+    elif shape < 0.65:
+        steps = [dec(), ['mut', how], ['other'], dec()]
+    elif shape < 0.8:
+        steps = [dec(), dec(), ['mut', how], dec()]
+    elif shape < 0.9 and rt.what in ('request', 'notification', 'result'):
+        steps = [dec(), ['encmut', 'insert'], dec()]
+    else:
+        steps = [dec(), ['mut', how], dec(), ['mut', 'insert'], dec()]
+    return Hist(rt, steps)
+
+
+def _copy(v):
+    if type(v) in (list, tuple):
+        return type(v)(_copy(x) for x in v)
+    if type(v) is dict:
+        return {k: _copy(x) for k, x in v.items()}
+    return v
+
+
+def eval_history(mod, h, loop):
+    """returns {'violations': [(key, why)], 'model': [(line, expected, label)], 'tags': [...]}"""
+    P = cc.protos(mod)
+    rt = h.rt
+    cls0 = P[rt.pname]
+    viol, mlines, tags = [], [], ['history']
+    # our own objects; `want` is what every decode must yield
+    if rt.what in ('request', 'notification'):
+        args = _copy(rt.args)
+        item = (mod.Request if rt.what == 'request' else mod.Notification)(rt.method, args)
+
+        def encode():
+            return cls0.request_message(item, rt.rid) if rt.what == 'request' else cls0.notification_message(item)
+
+        def want():
+            return [(rt.what, rt.method, norm(args), rt.rid if rt.what == 'request' else None)]
+    elif rt.what == 'result':
+        value = _copy(rt.value)
+
+        def encode():
+            return cls0.response_message(value, rt.rid)
+
+        def want():
+            return [('result', None, norm(value), rt.rid)]
+    elif rt.what == 'error':
+        def encode():
+            return cls0.response_message(mod.RPCError(rt.code, rt.message), rt.rid)
+
+        def want():
+            return [('error', rt.code, rt.message, rt.rid)]
+    else:
+        members = [tuple(_copy(list(m))) for m in rt.members]
+        items = [mod.Request(m[1], m[2]) if m[0] == 'R' else mod.Notification(m[1], m[2]) for m in members]
+
+        def encode():
+            return cls0.batch_message(mod.Batch(items), [m[3] for m in members if m[0] == 'R'])
+
+        def want():
+            return [('request', m[1], norm(m[2]), m[3]) if m[0] == 'R' else ('notification', m[1], norm(m[2]), None)
+                    for m in members]
+    try:
+        b = encode()
+    except Exception as e:      # noqa: encoder refusals are the round-trip family's business
+        return {'violations': viol, 'model': mlines, 'tags': ['history-skip']}
+    decoded = []
+
+    def describe(objs_with_ids):
+        out = []
+        for o, rid in objs_with_ids:
+            if type(o) is mod.Request:
+                out.append(('request', o.method, norm(o.args), rid))
+            elif type(o) is mod.Notification:
+                out.append(('notification', o.method, norm(o.args), None))
+            elif isinstance(o, mod.Response) and isinstance(o.result, mod.RPCError):
+                out.append(('error', o.result.code, o.result.message, rid))
+            elif isinstance(o, mod.Response) and not isinstance(o.result, Exception):
+                out.append(('result', None, norm(o.result), rid))
+            else:
+                out.append(('other', type(o).__name__, None, None))
+        return out
+
+    def equal_descr(a, b_, ids):
+        if len(a) != len(b_):
+            return False
+        for x, y in zip(a, b_):
+            if x[0] != y[0] or not same(x[1], y[1]) or not same(x[2], y[2]):
+                return False
+            if ids and not same(x[3], y[3]):
+                return False
+        return True
+
+    nth = 0
+    for step in h.steps:
+        if step[0] == 'mut':
+            poison_decoded(mod, decoded, step[1])
+            continue
+        if step[0] == 'other':
+            try:
+                P['v2'].message_to_item(b'{"jsonrpc":"2.0","method":"other","params":[1,[2]],"id":99}')
+            except Exception:     # noqa
+                pass
+            continue
+        if step[0] == 'encmut':
+            # our own argument object changes; the next encoding must say so
+            if rt.what in ('request', 'notification'):
+                poison(args, step[1])
+            elif rt.what == 'result':
+                poison(value, step[1])
+            try:
+                b = encode()
+            except Exception as e:     # noqa
+                viol.append((f'c04:encode-raises-{type(e).__name__}', 'encoding the modified item raised'))
+                break
+            continue
+        _dec, entry, pn = step
+        nth += 1
+        msg = bytes(bytearray(b))       # equal bytes, a distinct object
+        expected = want()
+        try:
+            if entry == 'item':
+                item_, rid_ = P[pn].message_to_item(msg)
+                if isinstance(item_, list):
+                    # a batch: decode the members the way a connection does
+                    asyncio.set_event_loop(loop)
+                    got = mod.JSONRPCConnection(P[pn]).receive_message(bytes(bytearray(b)))
+                    decoded.append(item_)
+                    decoded.extend(got)
+                    d = describe([(g, None) for g in got])
+                    ids = False
+                    line = None
+                else:
+                    decoded.append(item_)
+                    d = describe([(item_, rid_)])
+                    ids = True
+                    line = cc.item_line(mod, item_, rid_)
+                if line is not None:
+                    obj = json.loads(msg.decode())
+                    mlines.append((f'dec {pn} {E(obj)}', line, 'history-decode'))
+            elif entry == 'recv':
+                asyncio.set_event_loop(loop)
+                got = mod.JSONRPCConnection(P[pn]).receive_message(msg)
+                decoded.extend(got)
+                d = describe([(g, None) for g in got])
+                ids = False
+            else:
+                det = mod.JSONRPCAutoDetect.detect_protocol(msg)
+                item_, rid_ = det.message_to_item(bytes(bytearray(b)))
+                if isinstance(item_, list):
+                    asyncio.set_event_loop(loop)
+                    got = mod.JSONRPCConnection(det).receive_message(bytes(bytearray(b)))
+                    decoded.append(item_)
+                    decoded.extend(got)
+                    d = describe([(g, None) for g in got])
+                    ids = False
+                else:
+                    decoded.append(item_)
+                    d = describe([(item_, rid_)])
+                    ids = True
+        except BaseException as e:     # noqa
+            if isinstance(e, (KeyboardInterrupt, SystemExit)):
+                raise
+            viol.append((f'c04:roundtrip-{rt.what}',
+                         f'decode #{nth} ({entry}, {pn}) of the encoded {rt.what} raised {type(e).__name__}'))
+            break
+        if not equal_descr(d, expected, ids):
+            viol.append((f'c04:roundtrip-{rt.what}',
+                         f'decode #{nth} ({entry}, {pn}) of the encoded {rt.what} did not give the item that '
+                         f'was encoded (earlier decodes of equal bytes had been modified in place / other '
+                         f'messages decoded in between): got {str(d)[:120]}'))
+            break
+        tags.append('history-' + entry)
+    return {'violations': viol, 'model': mlines, 'tags': tags}
+
+
+def evaluate_histories(ctx, res, hs, scope):
+    if not hs:
+        return
+    _init(ctx.repo)
+    mod = _mod
+    loop = asyncio.new_event_loop()
+    try:
+        outs = [eval_history(mod, h, loop) for h in hs]
+    finally:
+        asyncio.set_event_loop(None)
+        loop.close()
+    lines, owner = [], []
+    for i, o in enumerate(outs):
+        for (ml, exp, label) in o['model']:
+            lines.append(ml)
+            owner.append((i, exp, label))
+    model = model_lines(ctx, lines)
+    for h, o in zip(hs, outs):
+        for key, why in o['violations']:
+            res.violation(key, dict(h.case(), scope=scope), why)
+        for t in o['tags']:
+            res.count('hist_' + t)
+        res.nontrivial(('hist', h.rt.pname, h.rt.what, str(h.steps)))
+    if model is not None:
+        for (i, exp, label), got in zip(owner, model):
+            res.count('model_' + label)
+            if got != exp:
+                res.disagreement(dict(hs[i].case(), scope=scope, step=label), exp, got)
+    res['evaluations'] += len(hs)
+
+
 # ------------------------------------------------------------------------------ laws L1 / L1b
 def check_laws(ctx, res, rng, n):
     """L1: loads(dumps(v)) = v for JSON-representable v; L1b: '[' + ', '.join(parts) + ']' loads
@@ -683,9 +1003,22 @@ def load_corpus(verif):
             if d['kind'] == 'decode':
                 payload = jwire.dec(d['payload']) if 'payload' in d else json.loads(d['json'])
                 dec.append((d['proto'], payload))
-            else:
+            elif d['kind'] == 'roundtrip':
                 rts.append(RT.from_case(d))
     return dec, rts
+
+
+def load_corpus_histories(verif):
+    path = os.path.join(verif, 'corpus', 'C04.txt')
+    out = []
+    if os.path.exists(path):
+        for line in open(path):
+            line = line.strip()
+            if line and not line.startswith('#'):
+                d = json.loads(line)
+                if d.get('kind') == 'history':
+                    out.append(Hist.from_case(d))
+    return out
 
 
 RULE = ('decode case = (protocol class, payload); exhaustive over every subset of the members '
@@ -697,7 +1030,10 @@ RULE = ('decode case = (protocol class, payload); exhaustive over every subset o
         'control characters, nesting to depth 200, ints to 4000 digits, all finite float classes, '
         '[] / () / {} params) with Loose and auto-detection cross-decoding; non-trivial = distinct '
         '(protocol, outcome line) for decodes other than plain INVALID_REQUEST, distinct '
-        '(protocol, kind, value) for round trips')
+        '(protocol, kind, value) for round trips; histories: an encoded item is decoded (message_to_item '
+        '/ a fresh connection / detect_protocol, by every class that gives it the same meaning), the '
+        'decoded objects are modified in place, other messages decoded, and equal bytes decoded again - '
+        'every decode must yield the item that was encoded')
 
 
 def random_payload(rng):
@@ -718,35 +1054,54 @@ def random_payload(rng):
     return cc.gen_value(rng, 2)
 
 
+def depth_of(ctx):
+    """quick / drift (quick tier after a fingerprint drift or a broken obligation: must stay
+    within ~90 s) / thorough"""
+    if ctx.tier == 'thorough':
+        return 'thorough'
+    return 'drift' if ctx.deep else 'quick'
+
+
+SCALE = {
+    #            laws  grid values/member  random payloads  round trips  histories
+    'quick':    (400,  QUICK_N,            4000,            3000,        600),
+    'drift':    (1000, QUICK_N,            30000,           8000,        3000),
+    'thorough': (3000, None,               60000,           40000,       12000),
+}
+
+
 def run(ctx):
     res = Results()
     rng = ctx.rng
+    nlaws, npm, nrand, nrt, nhist = SCALE[depth_of(ctx)]
     # (a) corpus first
     cdec, crts = load_corpus(ctx.verif)
     evaluate_decode(ctx, res, cdec, 'corpus')
     evaluate_roundtrips(ctx, res, crts, 'corpus')
     res['scopes']['corpus'] = len(cdec) + len(crts)
     # (b) laws + wire self-test
-    check_laws(ctx, res, rng, 3000 if ctx.deep else 400)
+    check_laws(ctx, res, rng, nlaws)
     # (c) exhaustive structural variants
-    npm = None if ctx.deep else QUICK_N
     cases = [(pn, p) for p in grid_payloads(npm) for pn in cc.PROTO_NAMES]
     evaluate_decode(ctx, res, cases, 'grid')
     res['scopes']['grid'] = {'values_per_member': {m: (len(GRID[m]) if npm is None else min(npm, len(GRID[m])))
                                                    for m in MEMBERS},
                              'payloads': grid_size(npm), 'protocols': list(cc.PROTO_NAMES)}
     # (d) random payloads
-    nrand = 60000 if ctx.deep else 4000
     cases = [(rng.choice(cc.PROTO_NAMES), random_payload(rng)) for _ in range(nrand)]
     evaluate_decode(ctx, res, cases, 'random-payload')
     res['scopes']['random_payloads'] = nrand
     # (e) round trips
-    nrt = 40000 if ctx.deep else 3000
     rts = [gen_rt(rng) for _ in range(nrt)]
     evaluate_roundtrips(ctx, res, rts, 'roundtrip')
     res['scopes']['roundtrips'] = nrt
     for rt in rts[:3]:
         res.sample(rt.case())
+    # (f) histories: decode / modify in place / decode equal bytes again
+    hs = load_corpus_histories(ctx.verif) + [gen_history(rng) for _ in range(nhist)]
+    evaluate_histories(ctx, res, hs, 'history')
+    res['scopes']['histories'] = len(hs)
+    res['scopes']['depth'] = depth_of(ctx)
     return res.finish(RULE, exhaustive=True)
 
 
@@ -758,5 +1113,7 @@ def replay(ctx, case):
         evaluate_decode(ctx, res, [(case['proto'], jwire.dec(case['payload']))], 'replay')
     elif case.get('kind') == 'roundtrip':
         evaluate_roundtrips(ctx, res, [RT.from_case(case)], 'replay')
+    elif case.get('kind') == 'history':
+        evaluate_histories(ctx, res, [Hist.from_case(case)], 'replay')
     res.sample(case)
     return res.finish('replay of one recorded case')
